@@ -70,6 +70,11 @@ def stepLine (w : Option State) (t : List String) : Option State × String :=
     match w with
     | none => (none, "no-world")
     | some s => let (s', out) := fill s (nat! base) (nat! p) (nat! n) 0; (some s', out)
+  | ["maps"] =>
+    -- sizes of the two private maps (the harness reads them off the wait set's Debug output)
+    match w with
+    | none => (none, "no-world")
+    | some s => (some s, "a2d=" ++ toString s.a2d.length ++ " d2a=" ++ toString s.d2a.length)
   | _ =>
     match w, parse t with
     | none, _ => (none, "no-world")
